@@ -94,6 +94,7 @@ type c11Case struct {
 	Fields []valSpec `json:"fields"`
 	TsMs   int64     `json:"tsms"`
 	TxSeed uint64    `json:"txseed"`
+	Prior  int       `json:"prior,omitempty"` // 1: another (well-formed) event of the same transaction is decoded first; 2: one of another transaction
 }
 
 var (
@@ -135,6 +136,21 @@ func runC11(c c11Case) (*vh.Violation, vh.Outcome) {
 		if len(f.Num) > 70 {
 			o.NonTrivial = true
 			o.Labels = append(o.Labels, "boundary:2^256-1")
+		}
+	}
+	// A transaction can make the contract publish several messages: the node reports them as consecutive events with
+	// the same tx id. What an event decodes to depends on its own fields only.
+	if c.Prior != 0 {
+		prior := []sdk.Val{valSpec{T: "ByteVec", Seed: 77, Len: 32}.val(), valSpec{T: "U256", Num: "2"}.val(), valSpec{T: "U256", Num: "100"}.val(),
+			valSpec{T: "ByteVec", Seed: 78, Len: 4}.val(), valSpec{T: "ByteVec", Seed: 79, Len: 2}.val(), valSpec{T: "U256", Num: "10"}.val()}
+		ptx := txId
+		if c.Prior == 2 {
+			ptx = hex.EncodeToString(vh.Expand(c.TxSeed+1000, 32))
+		} else {
+			o.Labels = append(o.Labels, "second-event-of-a-transaction")
+		}
+		if _, err, pan := callToMsg(prior, ptx); err != nil || pan != nil {
+			return vh.V("harness/prior-event", "the well-formed prior event was not decoded: %v %v", err, pan), o
 		}
 	}
 	msg, err, pan := callToMsg(fields, txId)
@@ -246,7 +262,8 @@ func genC11(t *rapid.T) c11Case {
 	case 3: // swap two fields
 		fs[1], fs[5] = fs[5], fs[1]
 	}
-	return c11Case{Fields: fs, TsMs: rapid.OneOf(rapid.Int64Range(0, 4102444800000), rapid.Int64Range(1600000000000, 1800000000999)).Draw(t, "tsms"), TxSeed: rapid.Uint64Range(0, 50).Draw(t, "tx")}
+	return c11Case{Fields: fs, TsMs: rapid.OneOf(rapid.Int64Range(0, 4102444800000), rapid.Int64Range(1600000000000, 1800000000999)).Draw(t, "tsms"), TxSeed: rapid.Uint64Range(0, 50).Draw(t, "tx"),
+		Prior: rapid.SampledFrom([]int{0, 1, 1, 2}).Draw(t, "prior")}
 }
 
 func TestVerif_C11_Fields(t *testing.T) {
